@@ -48,3 +48,8 @@ pub fn split_smart_quoted(input: &str, include_colon: bool) -> (String, String, 
 pub fn rank_new_suggestion(item: String, base: &str) -> Rank {
     Rank::new_suggestion(item, base)
 }
+
+/// The dictionary tables `PhoneticSuggestion` searches for a typed word that starts with `letter`.
+pub fn phonetic_tables_for(letter: &str) -> Vec<String> {
+    crate::phonetic::verif_tables_for(letter)
+}
